@@ -154,9 +154,10 @@ type executor struct {
 	resolveFor    *knownNode
 	resolveMemo   map[*Val]*Val
 	condMemo      map[string]int8
-	offCases      map[string][]offCase // offset terms that are small case splits over constants
-	mute          int                  // >0: obligations are not recorded (second execution of call2 hooks)
-	ghost         int                  // >0: helper calls belong to the hypothetical second execution of a call2 hook
+	mapInsts      map[string][]*mapInst // by "map#version"
+	offCases      map[string][]offCase  // offset terms that are small case splits over constants
+	mute          int                   // >0: obligations are not recorded (second execution of call2 hooks)
+	ghost         int                   // >0: helper calls belong to the hypothetical second execution of a call2 hook
 	noStoreEvents bool
 	pktOpaque     bool // a helper modified packet bytes (no store event describes it)
 }
